@@ -181,6 +181,52 @@ theorem run_splitPacketNew_gold (force : Bool) (protocol id total number : Nat) 
     exact DecodesEnd.bind_pure (decodesEnd_remainingBytes chunk) (fun _ => rfl)
   exact h.run
 
+/-- a Source split fragment of a bzip2-compressed reply (bit 31 of the id set): fragment 0 announces the
+uncompressed size and the CRC-32 before its chunk -/
+theorem run_splitPacketNew_bz (ids : Option (Nat × Option Nat)) (protocol id total number size crc : Nat)
+    (chunk : Bytes) (hid : 2 ^ 31 ≤ id) (hid2 : id < 2 ^ 32) (ht : total < 256) (hn : number < 256)
+    (hs : size < 2 ^ 32) (hcrc : crc < 2 ^ 32) :
+    (splitPacketNew (.source ids) protocol).run
+        (sourceFragment (withSize (.source ids) protocol) id total number
+          ((if number == 0 then le 4 size ++ le 4 crc else []) ++ chunk))
+      = .ok ⟨0xFFFFFFFE, id, total, number, 1248, if number == 0 then some (size, crc) else none, chunk⟩ := by
+  have hc : ((id >>> 31) &&& 1 == 1) = true := by
+    have : id >>> 31 = 1 := by rw [Nat.shiftRight_eq_div_pow]; omega
+    simp [this]
+  have h : DecodesEnd (splitPacketNew (.source ids) protocol)
+      (sourceFragment (withSize (.source ids) protocol) id total number
+        ((if number == 0 then le 4 size ++ le 4 crc else []) ++ chunk))
+      ⟨0xFFFFFFFE, id, total, number, 1248, if number == 0 then some (size, crc) else none, chunk⟩ := by
+    unfold splitPacketNew sourceFragment
+    simp only [List.append_assoc, u8]
+    refine DecodesEnd.bind decodes_splitHeader ?_ rfl
+    refine DecodesEnd.bind (decodes_le 4 id (by omega)) ?_ rfl
+    refine DecodesEnd.bind (decodes_u8 total ht) ?_ rfl
+    refine DecodesEnd.bind (decodes_u8 number hn) ?_ rfl
+    refine DecodesEnd.bind (decodes_splitSize (.source ids) protocol) ?_ rfl
+    simp only [hc, Bool.true_and]
+    have hopt : Decodes (readIf (number == 0) (do
+          let a ← readUnsigned .little 4
+          let b ← readUnsigned .little 4
+          pure (a, b)))
+        (if number == 0 then le 4 size ++ le 4 crc else []) (if number == 0 then some (size, crc) else none) := by
+      cases hz : (number == 0)
+      · simpa using decodes_readIf_none _
+      · simp only [↓reduceIte]
+        exact decodes_readIf_some (Decodes.bind (decodes_le 4 size (by omega))
+          (Decodes.bind_last (decodes_le 4 crc (by omega)) (Decodes.pure _)))
+    refine DecodesEnd.bind hopt ?_ rfl
+    exact DecodesEnd.bind_pure (decodesEnd_remainingBytes chunk) (fun _ => rfl)
+  exact h.run
+
+/-- `get_payload` of a compressed reply, when the decoder inverts the server's compressor and the checksum agrees -/
+theorem getPayload_bz (ext : Ext) (z packet : Bytes) (crc : Nat) (h1 : ext.bunzip z = some packet)
+    (h2 : ext.crc32 packet = crc) (h3 : packet.length ≤ maxDecompressedSize) :
+    getPayload ext (some (packet.length, crc)) z = .ok packet := by
+  have ht : packet.take (min packet.length maxDecompressedSize + 1) = packet :=
+    List.take_of_length_le (by rw [Nat.min_eq_left h3]; omega)
+  simp only [getPayload, h1, ht, h2, bne_self_eq_false, Bool.or_self, Bool.false_eq_true, ↓reduceIte]
+
 theorem run_readU8_split (rest : Bytes) : readU8.run (splitHeader ++ rest) = .ok 0xFE := by
   have := (decodes_readU8 0xFE).run_append ([0xFF, 0xFF, 0xFF] ++ rest)
   simpa [splitHeader] using this
@@ -319,10 +365,16 @@ theorem chunks_cons (sizes : List Nat) (bs : Bytes) : ∃ c cs, chunks sizes bs 
   | nil => exact ⟨bs, [], rfl⟩
   | cons n r => exact ⟨_, _, rfl⟩
 
-/-- one datagram, Source split or GoldSrc split (any cut points, fragments in any arrival order): `receive`
-returns the reply -/
+/-- what the client's external decoders must do with a compressed reply (nothing for the other transports) -/
+def BzOk (ext : Ext) (packet : Bytes) : Transport → Prop
+  | .sourceSplitBz _ _ z crc => ext.bunzip z = some packet ∧ ext.crc32 packet = crc ∧ packet.length ≤ maxDecompressedSize
+  | _ => True
+
+/-- one datagram, Source split (plain or bzip2-compressed) or GoldSrc split (any cut points, fragments in any arrival
+order): `receive` returns the reply -/
 theorem runs_receive_final (ext : Ext) (s : Sock) (hudp : s.tcp = false) (engine : Engine) (protocol : Nat)
     (kind : Nat) (hkind : kind < 256) (body : Bytes) (t : Transport) (ht : wfTransport engine t = true)
+    (hbz : BzOk ext (reply kind body) t)
     (arrival : List Bytes) (harr : arrival.Perm (datagrams (withSize engine protocol) t (reply kind body)))
     (hfit : ∀ d ∈ arrival, d.length ≤ PACKET_SIZE) (q : List Delivery) :
     Runs s (receive ext s engine protocol) ⟨0xFFFFFFFF, kind, body⟩ (arrival.map .data ++ q) q := by
@@ -339,7 +391,7 @@ theorem runs_receive_final (ext : Ext) (s : Sock) (hudp : s.tcp = false) (engine
       obtain ⟨c, cs, hcs⟩ := chunks_cons sizes (reply kind body)
       have hlen : (c :: cs).length = sizes.length + 1 := by rw [← hcs, chunks_length]
       have hflat : (c :: cs).flatten = reply kind body := by rw [← hcs, chunks_flatten]
-      simp only [datagrams, hcs, pairFun_eq] at harr
+      simp only [datagrams, hcs] at harr
       refine runs_receive_fragments ext s hudp (.source ids) protocol
         (fun i ch => sourceFragment (withSize (.source ids) protocol) id (c :: cs).length i ch)
         (fun i ch => ⟨0xFFFFFFFE, id, (c :: cs).length, i, 1248, none, ch⟩) 0xFFFFFFFE id c cs
@@ -360,7 +412,7 @@ theorem runs_receive_final (ext : Ext) (s : Sock) (hudp : s.tcp = false) (engine
       obtain ⟨c, cs, hcs⟩ := chunks_cons sizes (reply kind body)
       have hlen : (c :: cs).length = sizes.length + 1 := by rw [← hcs, chunks_length]
       have hflat : (c :: cs).flatten = reply kind body := by rw [← hcs, chunks_flatten]
-      simp only [datagrams, hcs, pairFun_eq] at harr
+      simp only [datagrams, hcs] at harr
       refine runs_receive_fragments ext s hudp (.goldSrc f) protocol
         (fun i ch => goldFragment id (c :: cs).length i ch)
         (fun i ch => ⟨0xFFFFFFFE, id, (c :: cs).length, i, 0, none, ch⟩) 0xFFFFFFFE id c cs
@@ -373,6 +425,32 @@ theorem runs_receive_final (ext : Ext) (s : Sock) (hudp : s.tcp = false) (engine
         exact run_readU8_split _
       · intro i ch hi
         exact run_splitPacketNew_gold f protocol id _ i ch ht.1 (by omega) (by omega)
+  | sourceSplitBz id sizes z crc =>
+    cases engine with
+    | goldSrc f => simp [wfTransport] at ht
+    | source ids =>
+      simp only [wfTransport, Bool.true_and, Bool.and_eq_true, decide_eq_true_eq] at ht
+      obtain ⟨⟨⟨hid1, hid2⟩, hsz⟩, hcrc⟩ := ht
+      obtain ⟨hb1, hb2, hb3⟩ := hbz
+      obtain ⟨c, cs, hcs⟩ := chunks_cons sizes z
+      have hlen : (c :: cs).length = sizes.length + 1 := by rw [← hcs, chunks_length]
+      have hflat : (c :: cs).flatten = z := by rw [← hcs, chunks_flatten]
+      have hmax : maxDecompressedSize < 2 ^ 32 := by decide
+      simp only [datagrams, hcs] at harr
+      refine runs_receive_fragments ext s hudp (.source ids) protocol
+        (fun i ch => sourceFragment (withSize (.source ids) protocol) id (c :: cs).length i
+          ((if i == 0 then le 4 (reply kind body).length ++ le 4 crc else []) ++ ch))
+        (fun i ch => ⟨0xFFFFFFFE, id, (c :: cs).length, i, 1248,
+          if i == 0 then some ((reply kind body).length, crc) else none, ch⟩) 0xFFFFFFFE id c cs
+        ?_ ?_ (fun _ _ => rfl) (fun _ _ => rfl) (fun _ _ => rfl) (fun _ _ => rfl) (fun _ _ => rfl)
+        arrival harr hfit (reply kind body) (by rw [hflat]; exact getPayload_bz ext z _ crc hb1 hb2 hb3)
+        _ (run_packetFromBuffer_reply kind hkind body) q
+      · intro i ch
+        unfold sourceFragment
+        simp only [List.append_assoc]
+        exact run_readU8_split _
+      · intro i ch hi
+        exact run_splitPacketNew_bz ids protocol id _ i _ crc ch hid1 hid2 (by omega) (by omega) (by omega) hcrc
 
 /-! ### challenge rounds -/
 
@@ -451,7 +529,8 @@ theorem runs_requestImpl (ext : Ext) (s : Sock) (hudp : s.tcp = false) (engine :
 exchange's transport with its datagrams delivered as `arrival` -/
 theorem runs_requestData (ext : Ext) (s : Sock) (hudp : s.tcp = false) (engine : Engine) (protocol retries : Nat)
     (req : Request) (kind : Nat) (hkind : kind < 256) (hk : kind ≠ 0x41) (body : Bytes) (x : Exchange)
-    (hx : wfTransport engine x.transport = true) (arrival : List Bytes)
+    (hx : wfTransport engine x.transport = true) (hbz : BzOk ext (reply kind body) x.transport)
+    (arrival : List Bytes)
     (harr : arrival.Perm (datagrams (withSize engine protocol) x.transport (reply kind body)))
     (hfit : ∀ d ∈ exchangeAs x arrival, d.length ≤ PACKET_SIZE) (q : List Delivery) :
     Runs s (requestData ext s retries engine protocol req) body ((exchangeAs x arrival).map .data ++ q) q := by
@@ -467,7 +546,10 @@ theorem runs_requestData (ext : Ext) (s : Sock) (hudp : s.tcp = false) (engine :
     | goldSplit id sizes =>
       obtain ⟨c, cs, hcs⟩ := chunks_cons sizes (reply kind body)
       simp [ht, datagrams, hcs, enumFrom_length] at h0
-  have hfinal := runs_receive_final ext s hudp engine protocol kind hkind body x.transport hx arrival harr
+    | sourceSplitBz id sizes z crc =>
+      obtain ⟨c, cs, hcs⟩ := chunks_cons sizes z
+      simp [ht, datagrams, hcs, enumFrom_length] at h0
+  have hfinal := runs_receive_final ext s hudp engine protocol kind hkind body x.transport hx hbz arrival harr
     (fun d hd => hfit d (by simp [exchangeAs, hd])) q
   have h := runs_requestImpl ext s hudp engine protocol req.kind req.defaultPayload kind hk body
     (arrival.map .data) hne q hfinal x.challenges (fun c hc => hfit _ (by
@@ -525,14 +607,16 @@ theorem run_parseInfo (cfg : Config) (st : State) (hwf : wf cfg st = true) :
     | false => exact (decodesEnd_sourceInfo (.goldSrc false) u st.info h).run
 
 theorem runs_getServerInfo (ext : Ext) (s : Sock) (hudp : s.tcp = false) (retries : Nat) (cfg : Config) (st : State)
-    (hwf : wf cfg st = true) (hx : wfTransport cfg.engine cfg.info.transport = true) (ai : List Bytes)
+    (hwf : wf cfg st = true) (hx : wfTransport cfg.engine cfg.info.transport = true)
+    (hbz : BzOk ext (infoPacket cfg st) cfg.info.transport) (ai : List Bytes)
     (hai : ai.Perm (infoDatagrams cfg st)) (hfit : ∀ d ∈ exchangeAs cfg.info ai, d.length ≤ PACKET_SIZE)
     (q : List Delivery) :
     Runs s (getServerInfo ext s retries cfg.engine) st.info ((exchangeAs cfg.info ai).map .data ++ q) q := by
   unfold getServerInfo
   rw [infoDatagrams, infoPacket_eq] at hai
+  rw [infoPacket_eq] at hbz
   exact Runs.bind (runs_requestData ext s hudp cfg.engine 0 retries .info (infoKind cfg.engine) (infoKind_ok _).1
-    (infoKind_ok _).2 (infoBody cfg st) cfg.info hx ai hai hfit q) (Runs.parse s (run_parseInfo cfg st hwf) q)
+    (infoKind_ok _).2 (infoBody cfg st) cfg.info hx hbz ai hai hfit q) (Runs.parse s (run_parseInfo cfg st hwf) q)
 
 /-- what a section contributes to the script / to the response under a gathering toggle -/
 def sectionAs (t : Toggle) (x : Exchange) (arrival : List Bytes) : List Bytes :=
@@ -540,7 +624,7 @@ def sectionAs (t : Toggle) (x : Exchange) (arrival : List Bytes) : List Bytes :=
 
 theorem runs_playersSection (ext : Ext) (s : Sock) (hudp : s.tcp = false) (retries : Nat) (cfg : Config) (st : State)
     (hwf : wf cfg st = true) (t : Toggle) (hx : (t == .skip || wfTransport cfg.engine cfg.players.transport) = true)
-    (ap : List Bytes) (hap : ap.Perm (playersDatagrams cfg st))
+    (hbz : BzOk ext (reply 0x44 (encPlayers st.players)) cfg.players.transport) (ap : List Bytes) (hap : ap.Perm (playersDatagrams cfg st))
     (hfit : ∀ d ∈ sectionAs t cfg.players ap, d.length ≤ PACKET_SIZE) (q : List Delivery) :
     Runs s (maybeGather t (getServerPlayers ext s retries cfg.engine st.info.protocolVersion))
       (if t == .skip then none else some st.players) ((sectionAs t cfg.players ap).map .data ++ q) q := by
@@ -553,12 +637,12 @@ theorem runs_playersSection (ext : Ext) (s : Sock) (hudp : s.tcp = false) (retri
     refine Runs.maybeGather ?_ t ht
     unfold getServerPlayers
     exact Runs.bind (runs_requestData ext s hudp cfg.engine _ retries .players 0x44 (by decide) (by decide)
-      (encPlayers st.players) cfg.players hx ap hap hfit q)
+      (encPlayers st.players) cfg.players hx hbz ap hap hfit q)
       (Runs.parse s (decodes_players cfg.engine st.players hpn hpl).run q)
 
 theorem runs_rulesSection (ext : Ext) (s : Sock) (hudp : s.tcp = false) (retries : Nat) (cfg : Config) (st : State)
     (hwf : wf cfg st = true) (t : Toggle) (hx : (t == .skip || wfTransport cfg.engine cfg.rules.transport) = true)
-    (ar : List Bytes) (har : ar.Perm (rulesDatagrams cfg st))
+    (hbz : BzOk ext (reply 0x45 (encRules st.rules)) cfg.rules.transport) (ar : List Bytes) (har : ar.Perm (rulesDatagrams cfg st))
     (hfit : ∀ d ∈ sectionAs t cfg.rules ar, d.length ≤ PACKET_SIZE) (q : List Delivery) :
     Runs s (maybeGather t (getServerRules ext s retries cfg.engine st.info.protocolVersion))
       (if t == .skip then none else some (expectedRules cfg.engine st.rules))
@@ -572,7 +656,7 @@ theorem runs_rulesSection (ext : Ext) (s : Sock) (hudp : s.tcp = false) (retries
     refine Runs.maybeGather ?_ t ht
     unfold getServerRules
     exact Runs.bind (runs_requestData ext s hudp cfg.engine _ retries .rules 0x45 (by decide) (by decide)
-      (encRules st.rules) cfg.rules hx ar har hfit q)
+      (encRules st.rules) cfg.rules hx hbz ar har hfit q)
       (Runs.parse s (decodes_rules cfg.engine st.rules hrn hrl hrd).run q)
 
 theorem scriptAs_sections (cfg : Config) (ai ap ar : List Bytes) :
@@ -583,7 +667,10 @@ theorem scriptAs_sections (cfg : Config) (ai ap ar : List Bytes) :
 
 /-- the query after the socket is open, against everything a conforming server sends -/
 theorem queryBody_whole (ext : Ext) (s : Sock) (hudp : s.tcp = false) (retries : Nat) (cfg : Config) (st : State)
-    (hwf : wf cfg st = true) (hx : wfExchanges cfg = true) (ai ap ar : List Bytes)
+    (hwf : wf cfg st = true) (hx : wfExchanges cfg = true)
+    (hbi : BzOk ext (infoPacket cfg st) cfg.info.transport)
+    (hbp : BzOk ext (reply 0x44 (encPlayers st.players)) cfg.players.transport)
+    (hbr : BzOk ext (reply 0x45 (encRules st.rules)) cfg.rules.transport) (ai ap ar : List Bytes)
     (hai : ai.Perm (infoDatagrams cfg st)) (hap : ap.Perm (playersDatagrams cfg st))
     (har : ar.Perm (rulesDatagrams cfg st)) (hfit : fits (scriptAs cfg ai ap ar) = true)
     (w : Net) (hw : At s w ((scriptAs cfg ai ap ar).map .data)) :
@@ -599,16 +686,16 @@ theorem queryBody_whole (ext : Ext) (s : Sock) (hudp : s.tcp = false) (retries :
   have hfr : ∀ d ∈ sectionAs cfg.gather.rules cfg.rules ar, d.length ≤ PACKET_SIZE := fun d hd =>
     hfit' d (by simp only [scriptAs, List.mem_append]; exact Or.inr hd)
   rw [scriptAs_sections] at hw
-  obtain ⟨w1, h1, hw1⟩ := runs_getServerInfo ext s hudp retries cfg st hwf hxi ai hai hfi _ w hw
+  obtain ⟨w1, h1, hw1⟩ := runs_getServerInfo ext s hudp retries cfg st hwf hxi hbi ai hai hfi _ w hw
   unfold queryBody
   rw [Q.bind_apply, h1]
   simp only [expected]
   by_cases happ : appIdOk cfg.engine cfg.gather st.info.appid = true
   · simp only [happ, Bool.not_true, Bool.false_eq_true, ↓reduceIte]
-    have hrest := Runs.bind (runs_playersSection ext s hudp retries cfg st hwf cfg.gather.players hxp ap hap hfp _)
+    have hrest := Runs.bind (runs_playersSection ext s hudp retries cfg st hwf cfg.gather.players hxp hbp ap hap hfp _)
       (g := fun players => maybeGather cfg.gather.rules (getServerRules ext s retries cfg.engine st.info.protocolVersion)
         >>= fun rules => pure (Response.mk st.info players rules))
-      (Runs.bind (runs_rulesSection ext s hudp retries cfg st hwf cfg.gather.rules hxr ar har hfr [])
+      (Runs.bind (runs_rulesSection ext s hudp retries cfg st hwf cfg.gather.rules hxr hbr ar har hfr [])
         (Runs.pure s _ []))
     obtain ⟨w3, h3, _⟩ := hrest w1 hw1
     exact congrArg Prod.fst h3
@@ -617,7 +704,10 @@ theorem queryBody_whole (ext : Ext) (s : Sock) (hudp : s.tcp = false) (retries :
 
 /-- the whole query from the initial state: one socket, with the server's datagrams queued on it -/
 theorem query_whole (ext : Ext) (port retries : Nat) (cfg : Config) (st : State)
-    (hwf : wf cfg st = true) (hx : wfExchanges cfg = true) (ai ap ar : List Bytes)
+    (hwf : wf cfg st = true) (hx : wfExchanges cfg = true)
+    (hbi : BzOk ext (infoPacket cfg st) cfg.info.transport)
+    (hbp : BzOk ext (reply 0x44 (encPlayers st.players)) cfg.players.transport)
+    (hbr : BzOk ext (reply 0x45 (encRules st.rules)) cfg.rules.transport) (ai ap ar : List Bytes)
     (hai : ai.Perm (infoDatagrams cfg st)) (hap : ap.Perm (playersDatagrams cfg st))
     (har : ar.Perm (rulesDatagrams cfg st)) (hfit : fits (scriptAs cfg ai ap ar) = true) :
     (query ext port cfg.engine cfg.gather retries
@@ -626,7 +716,22 @@ theorem query_whole (ext : Ext) (port retries : Nat) (cfg : Config) (st : State)
   have ho : openSock false port (Net.init [.opened ((scriptAs cfg ai ap ar).map .data)] [])
       = (.ok ⟨0, port, false⟩, ⟨[], [(scriptAs cfg ai ap ar).map .data], [], [.opened 0 false port false]⟩) := rfl
   rw [ho]
-  exact queryBody_whole ext ⟨0, port, false⟩ rfl retries cfg st hwf hx ai ap ar hai hap har hfit _
+  exact queryBody_whole ext ⟨0, port, false⟩ rfl retries cfg st hwf hx hbi hbp hbr ai ap ar hai hap har hfit _
     ⟨rfl, by simp, by simp⟩
+
+/-- nothing is asked of the external decoders when the reply is not compressed -/
+theorem bzOk_of_uncompressed (ext : Ext) (packet : Bytes) (t : Transport) (h : t.compressed = false) :
+    BzOk ext packet t := by
+  cases t <;> first | trivial | simp [Transport.compressed] at h
+
+/-- the law under which compressed replies are read: the client's decoder inverts the server's compressor, and both
+sides compute the same checksum -/
+theorem bzOk_of_law (ext : Ext) (compress : Bytes → Bytes) (hlaw : ∀ p, ext.bunzip (compress p) = some p)
+    (packet : Bytes) (t : Transport) (h : t.carries compress ext.crc32 packet) : BzOk ext packet t := by
+  cases t with
+  | sourceSplitBz id sizes z crc =>
+    obtain ⟨hz, hc, hl⟩ := h
+    exact ⟨by rw [hz]; exact hlaw packet, hc.symm, hl⟩
+  | _ => trivial
 
 end Gd.Valve
